@@ -442,3 +442,438 @@ Proof.
     change (95 :: 13 :: 10 :: r) with (95 :: [] ++ 13 :: 10 :: r).
     rewrite parse_tag_line; reflexivity.
 Qed.
+
+(* ================================================================== *)
+(* safety and progress: every outcome is a value / more / error, and    *)
+(* what is left is a suffix of the input                                *)
+
+Definition suffix_res (r : bytes) (res : pres) : Prop :=
+  match res with
+  | PDone _ r' | PFail _ r' => exists pre, r = pre ++ r'
+  | PMore _ => True
+  | PPanic | PAbort => False
+  end.
+
+Definition good_res (b : bytes) (res : pres) : Prop :=
+  match res with
+  | PDone _ r => exists pre, b = pre ++ r /\ (3 <= length pre)%nat
+  | PFail _ r => exists pre, b = pre ++ r /\ (2 <= length pre)%nat
+  | PMore _ => True
+  | PPanic | PAbort => False
+  end.
+
+Definition good (p : bytes -> pres) : Prop := forall b, good_res b (p b).
+
+Lemma suffix_refl r : exists pre : bytes, r = pre ++ r.
+Proof. now exists []. Qed.
+
+Lemma parse_bulk_suffix mb l r : suffix_res r (parse_bulk mb l r).
+Proof.
+  unfold parse_bulk. destruct (utf8_valid l); [|apply suffix_refl].
+  destruct (parse_i64 l) as [n|] eqn:En; [|apply suffix_refl].
+  apply parse_i64_range in En.
+  destruct (n =? -1)%Z; [apply suffix_refl|].
+  destruct ((n <? 0)%Z || (mb <? n)%Z) eqn:E1; [apply suffix_refl|].
+  apply orb_false_iff in E1 as [E1 _].
+  destruct (USIZE_MAX <? n + 2)%Z eqn:E2; [unfold USIZE_MAX, I64_MAX in *; lia|].
+  destruct (Z.of_nat (length r) <? n + 2)%Z eqn:E3; [exact I|].
+  pose proof (firstn_skipn (Z.to_nat n) r) as Hfs.
+  pose proof (skipn_length (Z.to_nat n) r) as Hlen.
+  destruct (skipn (Z.to_nat n) r) as [|x [|y r']] eqn:Es; cbn [length] in Hlen; try lia.
+  destruct ((x =? 13) && (y =? 10)).
+  - exists (firstn (Z.to_nat n) r ++ [x; y]). rewrite <- app_assoc. cbn [app]. now symmetry.
+  - exists (firstn (Z.to_nat n) r). now symmetry.
+Qed.
+
+Lemma elems_suffix p : good p -> forall fuel n r acc,
+  (length r < fuel)%nat -> suffix_res r (elems p fuel n r acc).
+Proof.
+  intros Hp fuel; induction fuel as [|f IH]; intros n r acc Hf; [lia|].
+  cbn [elems]. destruct (n =? 0); [apply suffix_refl|].
+  pose proof (Hp r) as Hg. destruct (p r) as [v r'|k|e r'| |]; cbn in Hg |- *; try tauto.
+  - destruct Hg as (pre & -> & Hpre). rewrite app_length in Hf.
+    specialize (IH (N.pred n) r' (v :: acc)). 
+    destruct (elems p f (N.pred n) r' (v :: acc)) as [v2 r2|k2|e2 r2| |]; cbn in IH |- *;
+      try (apply IH; lia).
+    + destruct IH as [pre2 ->]; [lia|]. exists (pre ++ pre2). now rewrite app_assoc.
+    + destruct IH as [pre2 ->]; [lia|]. exists (pre ++ pre2). now rewrite app_assoc.
+  - destruct Hg as (pre & -> & _). now exists pre.
+Qed.
+
+Lemma tagged_suffix mb rec c l r :
+  (forall p, rec = Some p -> good p) -> suffix_res r (tagged mb rec c l r).
+Proof.
+  intros Hrec. unfold tagged.
+  destruct (c =? 43). { destruct (utf8_valid l); apply suffix_refl. }
+  destruct (c =? 45). { destruct (utf8_valid l); apply suffix_refl. }
+  destruct (c =? 58).
+  { destruct (utf8_valid l); [|apply suffix_refl]. destruct (parse_i64 l); apply suffix_refl. }
+  destruct (c =? 36). { apply parse_bulk_suffix. }
+  destruct (c =? 42).
+  { destruct (utf8_valid l); [|apply suffix_refl].
+    destruct (parse_usize l); [|apply suffix_refl].
+    destruct rec as [p|]; [|apply suffix_refl].
+    apply elems_suffix; [now apply Hrec|lia]. }
+  destruct l; apply suffix_refl.
+Qed.
+
+Lemma inline_tokens_nil : inline_tokens [] = Some [].
+Proof. reflexivity. Qed.
+
+Lemma parse_step_good mb rec :
+  (forall p, rec = Some p -> good p) -> good (parse_step mb rec).
+Proof.
+  intros Hrec b. unfold parse_step. destruct b as [|c t]; [exact I|].
+  destruct (is_tag c).
+  - destruct (split_line t) as [[l r]|] eqn:Es; [|exact I].
+    apply split_line_spec in Es as [-> _].
+    pose proof (tagged_suffix mb rec c l r Hrec) as Hs.
+    destruct (tagged mb rec c l r) as [v r'|k|e r'| |]; cbn in Hs |- *; try tauto.
+    + destruct Hs as [pre ->]. exists (c :: l ++ 13 :: 10 :: pre). split.
+      * cbn [app]. rewrite <- app_assoc. reflexivity.
+      * cbn [length]. rewrite app_length. cbn [length]. lia.
+    + destruct Hs as [pre ->]. exists (c :: l ++ 13 :: 10 :: pre). split.
+      * cbn [app]. rewrite <- app_assoc. reflexivity.
+      * cbn [length]. rewrite app_length. cbn [length]. lia.
+  - destruct (split_line (c :: t)) as [[l r]|] eqn:Es; [|exact I].
+    apply split_line_spec in Es as [Eb _]. rewrite Eb.
+    unfold parse_inline. destruct (utf8_valid l).
+    + destruct l as [|x l'].
+      * rewrite inline_tokens_nil. exists [13; 10]. split; [reflexivity|cbn; lia].
+      * destruct (inline_tokens (x :: l')) as [[|t1 ts]|].
+        -- exists ((x :: l') ++ [13; 10]). split; [now rewrite <- app_assoc|].
+           rewrite app_length. cbn [length]. lia.
+        -- exists ((x :: l') ++ [13; 10]). split; [now rewrite <- app_assoc|].
+           rewrite app_length. cbn [length]. lia.
+        -- exists ((x :: l') ++ [13; 10]). split; [now rewrite <- app_assoc|].
+           rewrite app_length. cbn [length]. lia.
+    + exists (l ++ [13; 10]). split; [now rewrite <- app_assoc|].
+      rewrite app_length. cbn [length]. lia.
+Qed.
+
+Lemma parse_good mb d : good (parse mb d).
+Proof.
+  induction d as [|d IH]; intros b; rewrite parse_eq; apply parse_step_good; cbn [recd].
+  - discriminate.
+  - now intros p [= <-].
+Qed.
+
+(* ================================================================== *)
+(* a strict prefix of a frame: more data, nothing else                 *)
+
+Lemma split_app {A} (p t a b : list A) :
+  p ++ t = a ++ b ->
+  (exists q, p = a ++ q /\ b = q ++ t) \/
+  (exists t', t' <> [] /\ a = p ++ t' /\ t = t' ++ b).
+Proof.
+  revert a; induction p as [|x p IH]; intros a E.
+  - destruct a as [|y a].
+    + left. exists []. split; [reflexivity|exact (eq_sym E)].
+    + right. exists (y :: a). split; [discriminate|]. split; [reflexivity|exact E].
+  - destruct a as [|y a].
+    + left. exists (x :: p). split; [reflexivity|exact (eq_sym E)].
+    + cbn [app] in E. injection E as -> E. destruct (IH _ E) as [(q & -> & ->)|(t' & Ht & -> & ->)].
+      * left. exists q. split; reflexivity.
+      * right. exists t'. split; [exact Ht|]. split; reflexivity.
+Qed.
+
+Lemma prefix_header mb d c l p t :
+  is_tag c = true -> nocrlf l = true ->
+  p ++ t = c :: l ++ [13; 10] -> t <> [] -> parse mb d p = PMore false.
+Proof.
+  intros Hc Hl E Ht. rewrite parse_eq. unfold parse_step.
+  destruct p as [|c' p']; [reflexivity|]. cbn [app] in E. injection E as -> E.
+  rewrite Hc. now rewrite (split_line_strict_prefix l Hl p' t E Ht).
+Qed.
+
+Definition prefix_more (p : bytes -> pres) (v : rv) : Prop :=
+  forall q t, q ++ t = encode v -> t <> [] -> exists k, p q = PMore k.
+
+Lemma elems_prefix (p : bytes -> pres) l :
+  Forall (fun v => forall r, p (encode v ++ r) = PDone (sanitize v) r) l ->
+  Forall (prefix_more p) l ->
+  forall q t acc fuel, q ++ t = flat_map encode l -> t <> [] -> (length q < fuel)%nat ->
+  elems p fuel (N.of_nat (length l)) q acc = PMore true.
+Proof.
+  induction l as [|v l IH]; intros Hrt Hpm q t acc fuel E Ht Hf.
+  - cbn in E. apply app_eq_nil in E as [_ ->]. congruence.
+  - inversion Hrt as [|? ? Hv Hrt']; subst. inversion Hpm as [|? ? Hq Hpm']; subst.
+    destruct fuel as [|f]; [lia|]. cbn [elems length].
+    destruct (N.of_nat (S (length l)) =? 0) eqn:E0; [lia|].
+    cbn [flat_map] in E. destruct (split_app _ _ _ _ E) as [(q' & -> & E')|(t' & Ht' & E' & _)].
+    + rewrite Hv. replace (N.pred (N.of_nat (S (length l)))) with (N.of_nat (length l)) by lia.
+      rewrite app_length in Hf. pose proof (encode_nonnil v).
+      eapply IH; eauto. destruct (encode v); [congruence|cbn [length] in Hf; lia].
+    + destruct (Hq q t' (eq_sym E') Ht') as [k ->]. reflexivity.
+Qed.
+
+Lemma prefix_more_parse mb : mb_ok mb -> forall v d,
+  repr mb v -> (depth v <= d)%nat -> prefix_more (parse mb d) v.
+Proof.
+  intros Hmb v.
+  induction v as [s|s|z|o|l IH|] using rv_ind'; intros d Hr Hd q t E Ht.
+  - exists false. cbn [encode] in E. eapply prefix_header; eauto; [reflexivity|].
+    apply nocrlf_no_cr. eapply Forall_impl; [|apply clean_map_san]. now intros x [? _].
+  - exists false. cbn [encode] in E. eapply prefix_header; eauto; [reflexivity|].
+    apply nocrlf_no_cr. eapply Forall_impl; [|apply clean_map_san]. now intros x [? _].
+  - exists false. cbn [encode] in E. eapply prefix_header; eauto; [reflexivity|].
+    apply (line_payload_ok _ (dec_Z_ok z)).
+  - destruct o as [dd|].
+    + cbn [encode] in E.
+      destruct (line_payload_ok _ (dec_nat_ok (length dd))) as [H1 H2].
+      replace (36 :: dec_nat (length dd) ++ crlf ++ dd ++ crlf)
+        with ((36 :: dec_nat (length dd) ++ crlf) ++ dd ++ crlf) in E
+        by (cbn [app]; now rewrite <- app_assoc).
+      destruct (split_app _ _ _ _ E) as [(q' & -> & E')|(t' & Ht' & E' & _)].
+      * exists true. cbn [app]. rewrite <- app_assoc. cbn [crlf app].
+        rewrite parse_tag_line; [|reflexivity|exact H1].
+        unfold tagged. change (36 =? 43) with false. change (36 =? 45) with false.
+        change (36 =? 58) with false. change (36 =? 36) with true. cbv iota.
+        unfold parse_bulk. rewrite H2.
+        cbn [repr] in Hr. unfold zlen in Hr. unfold mb_ok in Hmb.
+        rewrite parse_i64_dec_nat by lia.
+        destruct (Z.of_nat (length dd) =? -1)%Z eqn:E1; [lia|].
+        destruct (Z.of_nat (length dd) <? 0)%Z eqn:E2; [lia|].
+        destruct (mb <? Z.of_nat (length dd))%Z eqn:E3; [lia|]. cbn [orb].
+        destruct (USIZE_MAX <? Z.of_nat (length dd) + 2)%Z eqn:E4;
+          [unfold USIZE_MAX, I64_MAX in *; lia|].
+        assert (Hlen : (length q' + length t = length dd + 2)%nat).
+        { apply (f_equal (@length N)) in E'. rewrite !app_length in E'. cbn [crlf length] in E'. lia. }
+        assert (length t <> 0)%nat by (destruct t; [congruence|cbn; lia]).
+        destruct (Z.of_nat (length q') <? Z.of_nat (length dd) + 2)%Z eqn:E5; [reflexivity|lia].
+      * exists false.
+        apply (prefix_header mb d 36 (dec_nat (length dd)) q t'); auto.
+    + exists false. cbn [encode] in E.
+      change [36; 45; 49; 13; 10] with (36 :: [45; 49] ++ [13; 10]) in E.
+      eapply prefix_header; eauto; reflexivity.
+  - cbn [encode] in E.
+    destruct (line_payload_ok _ (dec_nat_ok (length l))) as [H1 H2].
+    replace (42 :: dec_nat (length l) ++ crlf ++ flat_map encode l)
+      with ((42 :: dec_nat (length l) ++ crlf) ++ flat_map encode l) in E
+      by (cbn [app]; now rewrite <- app_assoc).
+    destruct (split_app _ _ _ _ E) as [(q' & -> & E')|(t' & Ht' & E' & _)].
+    + exists true. cbn [app]. rewrite <- app_assoc. cbn [crlf app].
+      rewrite parse_tag_line; [|reflexivity|exact H1].
+      unfold tagged. change (42 =? 43) with false. change (42 =? 45) with false.
+      change (42 =? 58) with false. change (42 =? 36) with false.
+      change (42 =? 42) with true. cbv iota. rewrite H2.
+      apply repr_arr in Hr as [Hlen Hall].
+      rewrite parse_usize_dec_nat by exact Hlen.
+      destruct d as [|d']; [cbn [depth] in Hd; lia|]. cbn [recd].
+      apply depth_arr in Hd.
+      replace (Z.to_N (Z.of_nat (length l))) with (N.of_nat (length l)) by lia.
+      eapply elems_prefix with (t := t); eauto.
+      * rewrite Forall_forall in *. intros v Hv r'. apply roundtrip; auto.
+      * rewrite Forall_forall in *. intros v Hv. apply IH; auto.
+    + exists false.
+      apply (prefix_header mb d 42 (dec_nat (length l)) q t'); auto.
+  - exists false. cbn [encode] in E.
+    change [95; 13; 10] with (95 :: [] ++ [13; 10]) in E.
+    eapply prefix_header; eauto; reflexivity.
+Qed.
+
+(* ================================================================== *)
+(* frames as the server sees them                                      *)
+
+Definition pending (q : bytes) : Prop := exists k, decode q = More k q.
+
+Definition frame_ok (e : bytes) (v : rv) : Prop :=
+  e <> [] /\
+  (forall r, decode (e ++ r) = Done v r) /\
+  (forall p t, p ++ t = e -> t <> [] -> pending p).
+
+Lemma max_bulk_ok : mb_ok MAX_BULK.
+Proof. unfold mb_ok, MAX_BULK, I64_MAX. lia. Qed.
+
+Lemma decode_roundtrip v r :
+  repr MAX_BULK v -> (depth v <= MAX_DEPTH)%nat -> decode (encode v ++ r) = Done (sanitize v) r.
+Proof.
+  intros Hr Hd. unfold decode, decode_with. now rewrite (roundtrip _ max_bulk_ok) by assumption.
+Qed.
+
+Lemma decode_prefix v p t :
+  repr MAX_BULK v -> (depth v <= MAX_DEPTH)%nat ->
+  p ++ t = encode v -> t <> [] -> exists k, decode p = More k p.
+Proof.
+  intros Hr Hd E Ht. unfold decode, decode_with.
+  destruct (prefix_more_parse _ max_bulk_ok v MAX_DEPTH Hr Hd p t E Ht) as [k ->]. now exists k.
+Qed.
+
+Lemma inline_roundtrip mb d l r :
+  wf_inline l -> parse mb d ((l ++ crlf) ++ r) = PDone (inline_value l) r.
+Proof.
+  intros (Hc & Hn & Hu & t1 & ts & Ht).
+  destruct l as [|c l']; [contradiction|].
+  rewrite parse_eq. rewrite <- app_assoc. cbn [crlf app]. unfold parse_step. rewrite Hc.
+  change (c :: l' ++ 13 :: 10 :: r) with ((c :: l') ++ 13 :: 10 :: r).
+  rewrite split_line_app by exact Hn.
+  unfold parse_inline, inline_value. rewrite Hu, Ht. reflexivity.
+Qed.
+
+Lemma inline_prefix mb d l p t :
+  wf_inline l -> p ++ t = l ++ crlf -> t <> [] -> parse mb d p = PMore false.
+Proof.
+  intros (Hc & Hn & _) E Ht.
+  destruct l as [|c l']; [contradiction|].
+  rewrite parse_eq. unfold parse_step. destruct p as [|c' p']; [reflexivity|].
+  cbn [app] in E. injection E as -> E. rewrite Hc.
+  now rewrite (split_line_strict_prefix (c :: l') Hn (c :: p') t) by (cbn [app]; now f_equal).
+Qed.
+
+Lemma frame_wf_ok f : frame_wf f -> frame_ok (frame_bytes f) (frame_value f).
+Proof.
+  destruct f as [v|l]; cbn [frame_wf frame_bytes frame_value].
+  - intros (Hr & Hc & Hd). split; [apply encode_nonnil|]. split.
+    + intros r. rewrite decode_roundtrip by assumption. now rewrite sanitize_clean.
+    + intros p t E Ht. eapply decode_prefix; eauto.
+  - intros Hw. split.
+    + destruct Hw as (Hc & _). destruct l; [contradiction|discriminate].
+    + split.
+      * intros r. unfold decode, decode_with. now rewrite inline_roundtrip.
+      * intros p t E Ht. exists false. unfold decode, decode_with.
+        now rewrite (inline_prefix _ _ l p t).
+Qed.
+
+Lemma pending_nil : pending [].
+Proof. exists false. reflexivity. Qed.
+
+(* ================================================================== *)
+(* the server loop                                                     *)
+
+Definition fr (f : frame) : event := Frame (frame_value f).
+
+Lemma flat_frames_length fs :
+  Forall frame_wf fs -> (length fs <= length (flat_map frame_bytes fs))%nat.
+Proof.
+  induction 1 as [|f fs Hf _ IH]; [cbn; lia|].
+  cbn [flat_map length]. rewrite app_length.
+  destruct (frame_wf_ok f Hf) as (Hn & _). destruct (frame_bytes f); [congruence|cbn [length]; lia].
+Qed.
+
+Lemma drain_frames fs : Forall frame_wf fs -> forall q fuel,
+  pending q -> (length fs < fuel)%nat ->
+  drain fuel (flat_map frame_bytes fs ++ q) = (q, map fr fs).
+Proof.
+  induction 1 as [|f fs Hf _ IH]; intros q fuel Hq Hfuel.
+  - destruct fuel as [|fu]; [lia|]. cbn [flat_map app drain map].
+    destruct Hq as [k ->]. reflexivity.
+  - destruct fuel as [|fu]; [cbn in Hfuel; lia|]. cbn [flat_map drain map].
+    rewrite <- app_assoc. destruct (frame_wf_ok f Hf) as (_ & Hd & _). rewrite Hd.
+    rewrite IH; [reflexivity|exact Hq|cbn [length] in Hfuel; lia].
+Qed.
+
+(* any prefix of a stream of frames = some whole frames + a pending remainder *)
+Lemma stream_prefix fs : Forall frame_wf fs -> forall P T,
+  P ++ T = flat_map frame_bytes fs ->
+  exists fs1 fs2 q, fs = fs1 ++ fs2 /\ P = flat_map frame_bytes fs1 ++ q /\
+                    pending q /\ q ++ T = flat_map frame_bytes fs2.
+Proof.
+  induction 1 as [|f fs Hf Hfs IH]; intros P T E.
+  - cbn in E. apply app_eq_nil in E as [-> ->].
+    exists [], [], []. repeat split; auto using pending_nil.
+  - cbn [flat_map] in E. destruct (split_app _ _ _ _ E) as [(P' & -> & E')|(t' & Ht' & E' & ->)].
+    + destruct (IH P' T (eq_sym E')) as (fs1 & fs2 & q & -> & -> & Hq & Hrest).
+      exists (f :: fs1), fs2, q. repeat split; auto.
+      cbn [flat_map]. now rewrite app_assoc.
+    + exists [], (f :: fs), P.
+      split; [reflexivity|]. split; [reflexivity|]. split.
+      * destruct (frame_wf_ok f Hf) as (_ & _ & Hp). apply (Hp P t'); auto.
+      * cbn [flat_map]. rewrite E'. now rewrite app_assoc.
+Qed.
+
+Lemma run_frames chunks : forall fs q,
+  Forall frame_wf fs -> pending q -> q ++ concat chunks = flat_map frame_bytes fs ->
+  run q chunks = ([], map fr fs).
+Proof.
+  induction chunks as [|c cs IH]; intros fs q Hfs Hq E.
+  - cbn [concat] in E. rewrite app_nil_r in E. subst q. cbn [run].
+    destruct fs as [|f fs]; [reflexivity|].
+    inversion Hfs as [|? ? Hf _]; subst. destruct (frame_wf_ok f Hf) as (_ & Hd & _).
+    destruct Hq as [k Hk]. cbn [flat_map] in Hk. rewrite Hd in Hk. discriminate.
+  - cbn [concat] in E. rewrite app_assoc in E.
+    destruct (stream_prefix fs Hfs _ _ E) as (fs1 & fs2 & q' & -> & E1 & Hq' & E2).
+    apply Forall_app in Hfs as [Hfs1 Hfs2].
+    cbn [run]. unfold feed. rewrite E1.
+    rewrite drain_frames; auto.
+    + rewrite (IH fs2 q' Hfs2 Hq' E2). now rewrite map_app.
+    + rewrite app_length. pose proof (flat_frames_length fs1 Hfs1). lia.
+Qed.
+
+Theorem chunking fs chunks :
+  Forall frame_wf fs -> concat chunks = flat_map frame_bytes fs ->
+  run [] chunks = ([], map fr fs).
+Proof. intros Hfs E. apply run_frames; auto using pending_nil. Qed.
+
+(* the loop never gets stuck or crashes, whatever arrives *)
+Lemma decode_good b :
+  match decode b with
+  | Done _ r => exists pre, b = pre ++ r /\ (3 <= length pre)%nat
+  | Fail _ r => exists pre, b = pre ++ r /\ (2 <= length pre)%nat
+  | More _ r => r = b
+  | Panic | Abort => False
+  end.
+Proof.
+  unfold decode, decode_with. pose proof (parse_good MAX_BULK MAX_DEPTH b) as H.
+  destruct (parse MAX_BULK MAX_DEPTH b); cbn in H; auto.
+Qed.
+
+Lemma drain_sane fuel : forall b, (length b < fuel)%nat ->
+  forall e, In e (snd (drain fuel b)) -> e <> Stuck /\ e <> Crashed.
+Proof.
+  induction fuel as [|f IH]; intros b Hf e He; [lia|].
+  cbn [drain] in He. pose proof (decode_good b) as Hg.
+  destruct (decode b) as [v r|k r|er r| |]; try contradiction.
+  - destruct Hg as (pre & -> & Hpre). rewrite app_length in Hf.
+    specialize (IH r ltac:(lia)). destruct (drain f r) as [b' ev]. cbn [snd] in *.
+    destruct He as [<-|He]; [split; discriminate|]. now apply IH.
+  - cbn in He. destruct He as [<-|[]]. split; discriminate.
+Qed.
+
+Lemma feed_sane buf chunk e : In e (snd (feed buf chunk)) -> e <> Stuck /\ e <> Crashed.
+Proof. unfold feed. apply drain_sane. lia. Qed.
+
+(* ================================================================== *)
+(* nesting of decoded values                                           *)
+
+Lemma elems_depth p k : (forall b v r, p b = PDone v r -> (depth v <= k)%nat) ->
+  forall fuel n r acc v r', Forall (fun x => (depth x <= k)%nat) acc ->
+  elems p fuel n r acc = PDone v r' -> (depth v <= S k)%nat.
+Proof.
+  intros Hp fuel; induction fuel as [|f IH]; intros n r acc v r' Hacc H; cbn [elems] in H.
+  - destruct (n =? 0); [|discriminate]. injection H as <- _.
+    apply depth_arr. now apply Forall_rev.
+  - destruct (n =? 0).
+    + injection H as <- _. apply depth_arr. now apply Forall_rev.
+    + destruct (p r) as [v1 r1|?|? ?| |] eqn:E; try discriminate.
+      eapply IH; [|exact H]. constructor; [eapply Hp; eauto|exact Hacc].
+Qed.
+
+Lemma depth_bulk_list k ts :
+  Forall (fun x => (depth x <= k)%nat) (map (fun t => Bulk (Some t)) ts).
+Proof. apply Forall_map, Forall_forall. intros; cbn [depth]; lia. Qed.
+
+Lemma parse_depth mb d : forall b v r, parse mb d b = PDone v r -> (depth v <= S d)%nat.
+Proof.
+  induction d as [|d IH]; intros b v r H; rewrite parse_eq in H; unfold parse_step in H;
+    (destruct b as [|c t]; [discriminate|]);
+    (destruct (is_tag c);
+     [ destruct (split_line t) as [[l r0]|]; [|discriminate]; unfold tagged in H;
+       repeat match type of H with
+              | (if ?c then _ else _) = _ => destruct c
+              | match ?o with _ => _ end = _ => destruct o eqn:?
+              end; try discriminate; try (injection H as <- _; cbn [depth]; lia)
+     | destruct (split_line (c :: t)) as [[l r0]|]; [|discriminate]; unfold parse_inline in H;
+       repeat match type of H with
+              | (if ?c then _ else _) = _ => destruct c
+              | match ?o with _ => _ end = _ => destruct o eqn:?
+              end; try discriminate; injection H as <- _; apply depth_arr;
+       exact (depth_bulk_list _ (_ :: _)) ]).
+  all: try (unfold parse_bulk in H;
+       repeat match type of H with
+              | (if ?c then _ else _) = _ => destruct c
+              | match ?o with _ => _ end = _ => destruct o eqn:?
+              end; try discriminate; injection H as <- _; cbn [depth]; lia).
+  - cbn [recd] in *. congruence.
+  - cbn [recd] in *. match goal with E : Some _ = Some _ |- _ => injection E as <- end.
+    eapply elems_depth in H; eauto. intros b' v' r' H'. apply IH in H'. lia.
+Qed.
